@@ -10,6 +10,8 @@ mod c_bits;
 #[cfg(kani)]
 mod c_grid;
 #[cfg(kani)]
+mod c_image;
+#[cfg(kani)]
 mod c_container;
 #[cfg(kani)]
 mod playback_gen;
